@@ -20,6 +20,7 @@ Section CtrInd.
   Hypothesis HSet : forall c mx mut, P c -> P (CSet c mx mut).
   Hypothesis HChoice : forall cs, Forall P cs -> P (CChoice cs).
   Hypothesis HOpt : forall c, P c -> P (COpt c).
+  Hypothesis HRemote : forall i, P (CRemote i).
 
   Fixpoint ctr_ind' (c : ctr) : P c :=
     let fix all (cs : list ctr) : Forall P cs :=
@@ -33,6 +34,7 @@ Section CtrInd.
     | CSet c1 mx mut => HSet c1 mx mut (ctr_ind' c1)
     | CChoice cs => HChoice cs (all cs)
     | COpt c1 => HOpt c1 (ctr_ind' c1)
+    | CRemote i => HRemote i
     end.
 End CtrInd.
 
@@ -50,6 +52,7 @@ Section ObjInd.
   Hypothesis HFset : forall l, Forall P l -> P (OFset l).
   Hypothesis HDict : forall ks vs, Forall P ks -> Forall P vs -> P (ODict ks vs).
   Hypothesis HPending : forall k, P (OPending k).
+  Hypothesis HRemote : forall n, P (ORemote n).
 
   Fixpoint obj_ind' (o : obj) : P o :=
     let fix all (l : list obj) : Forall P l :=
@@ -60,6 +63,7 @@ Section ObjInd.
     | OList l => HList l (all l) | OTuple l => HTuple l (all l) | OSet l => HSet l (all l) | OFset l => HFset l (all l)
     | ODict ks vs => HDict ks vs (all ks) (all vs)
     | OPending k => HPending k
+    | ORemote n => HRemote n
     end.
 End ObjInd.
 
@@ -109,7 +113,9 @@ Inductive satisfies : ctr -> obj -> Prop :=
 | S_set c mx mut l : fixed mut true -> max_in mx (zlen l) -> Forall (satisfies c) l -> satisfies (CSet c mx mut) (OSet l)
 | S_fset c mx mut l : fixed mut false -> max_in mx (zlen l) -> Forall (satisfies c) l -> satisfies (CSet c mx mut) (OFset l)
 | S_choice cs c o : In c cs -> satisfies c o -> satisfies (CChoice cs) o
-| S_opt c o : satisfies (COpt c) o.
+| S_opt c o : satisfies (COpt c) o
+| S_remote_any claim : satisfies (CRemote None) (ORemote claim)
+| S_remote d : d <> [] -> satisfies (CRemote (Some d)) (ORemote d).
 
 (* destructs every integer comparison of the goal (robust against re-phrasings of the translated tests) *)
 Ltac bcmp :=
@@ -204,6 +210,12 @@ Proof.
     + intros (c & Hin & Hc). rewrite Forall_forall in H. apply (S_choice cs c); [assumption|]. apply H; assumption.
     + intros A1. inversion A1; subst. exists c. split; [assumption|]. rewrite Forall_forall in H. apply H; assumption.
   - cbn. split; [constructor|reflexivity].
+  - destruct o; cbn [checkObject]; try (split; [discriminate|intros A1; inversion A1]).
+    destruct i as [d|].
+    + rewrite andb_true_iff, negb_true_iff. split.
+      * intros [N E]. apply list_eqb_eq in E. subst. apply S_remote. intros ->. discriminate N.
+      * intros A1. inversion A1; subst. split; [destruct claim; [congruence|reflexivity]|apply list_eqb_eq; reflexivity].
+    + split; [constructor|reflexivity].
 Qed.
 
 (* ------------------------------------------------------------------ C02, argument side *)
@@ -828,6 +840,8 @@ Proof.
     rewrite (ser_atom_inv _ _ A S).
     pose proof (everything_token o false T A0) as E. destruct o; try discriminate; try reflexivity.
     all: destruct E as (tb & size & E1 & E2); rewrite E1; cbn [slot_token taste]; apply of_tv_ok; exact E2.
+  - (* RemoteInterface: only the receiver's view is modelled *)
+    destruct o; try discriminate.
 Qed.
 
 (* the tree serialization (what slice produces) as a special case *)
@@ -984,3 +998,12 @@ Example reference_checked_nonvacuous :
   recv_answer (Some (CTuple [CDict (CBytes None 0) (CList (CInt (Some 1024)) None 0) None]))
               (WOpen OtTuple [WOpen OtDict [WStr false 1 [107]; WRef (OPending 1)]]) = Errback.
 Proof. vm_compute. auto. Qed.
+
+(* RemoteInterface arguments: a my-reference is not examined at token level; the claimed interface name is compared with
+   the declared one by the final checkAllArgs (C02_args covers it like every other constraint) *)
+Example C02_remote_example :
+  recv_call (ms1 (CRemote (Some [82; 73]))) [WOpen OtMyRef [WInt 129 3 3; WStr false 2 [82; 73]]] [] = CInvoke [ORemote [82; 73]] [] /\
+  recv_call (ms1 (CRemote (Some [82; 73]))) [WOpen OtMyRef [WInt 129 3 3; WStr false 2 [82; 66]]] [] = CViol /\
+  recv_call (ms1 (CRemote (Some [82; 73]))) [WOpen OtMyRef [WInt 129 3 3]] [] = CViol /\
+  recv_call (ms1 (CRemote None)) [WOpen OtMyRef [WInt 129 3 3]] [] = CInvoke [ORemote []] [].
+Proof. vm_compute. repeat split; reflexivity. Qed.
